@@ -19,7 +19,10 @@ oracle:      the property stated on the real code: orthonormality, det = +1, R(-
              rows are independent (first and last row of an array converted on their own, both directions, also for
              reference positions 1e-3..10 m / orbit states 0.1..10 ms apart); the frame, llh, az/el/zd and converted
              components of `array[i | -i | np.int | a:b | ::s | list | int array | mask]` are those of the same rows of
-             the array, on every registered ellipsoid
+             the array, on every registered ellipsoid; broadcasting: (k,), (1,k), (n,k), (m,k) reference positions /
+             states / observers against (k,), (1,k), (n,k), (m,k) values / targets and scalar / (n,) angles are accepted
+             with the model's rows or refused (ValueError) on both sides; a single reference position is the frame of
+             every row; vector = target - observer for an observer given in TRS
 """
 from __future__ import annotations
 
@@ -108,7 +111,9 @@ def run(ctx: Ctx):
                 "r, v (incl. nearly parallel, retrograde); shapes (k,), (1,k), (n,k); 30 % of the arrays have reference rows that "
                 "are 1e-3..10 m (orbit states: 0.1..10 ms of motion) apart; rows taken from arrays of 2..6 rows with an int, "
                 "negative int, np.int_, slice, stepped/reversed slice, list, int array or boolean mask, array-level properties read "
-                "before or after the rows. A case is non-trivial when the "
+                "before or after the rows; broadcasting: (k,), (1,k), (n,k), (m,k) reference positions / observers / states against "
+                "(k,), (1,k), (n,k), (m,k) values / targets and scalar or (n,) latitudes against scalar or (n,) longitudes (accepted "
+                "or refused on both sides); vector/distance/direction of observers given in trs and in llh. A case is non-trivial when the "
                 "angle / vector is non-zero; distinct by canonical input values.")
     ctx.trusted += ["floating-point error is measured on the sampled inputs (<= 2 ulp per matrix entry against the Float "
                     "model, exact equality against the Rat model of the algebraic part), not proved",
@@ -124,6 +129,7 @@ def run(ctx: Ctx):
     check_position_frames(ctx)
     check_histories(ctx)
     check_indexed_frames(ctx)
+    check_broadcast(ctx)
     check_acr(ctx)
     check_azel(ctx)
     ctx.traces = ctx.evaluations
@@ -154,7 +160,7 @@ def corpus_case(ctx, c):
 def check_axis_rotations(ctx: Ctx):
     _, _, _, _, _, rotation, _ = _imp()
     drv, rng = ctx.driver, ctx.rng
-    n = ctx.budget(600, 30000)
+    n = ctx.budget(600, 12000)
     for _ in range(n):
         k = rng.choice("123")
         kind = rng.choice(["scalar", "scalar", "array", "list", "int", "intlist", "intarray"])
@@ -232,7 +238,7 @@ def check_axis_rotations(ctx: Ctx):
 def check_enu_matrices(ctx: Ctx):
     _, _, _, _, _, rotation, _ = _imp()
     drv, rng = ctx.driver, ctx.rng
-    n = ctx.budget(500, 25000)
+    n = ctx.budget(500, 10000)
     for _ in range(n):
         kind = rng.choice(["scalar", "array"])
         m = 1 if kind == "scalar" else rng.randint(1, 4)
@@ -328,7 +334,7 @@ def check_position_frames(ctx: Ctx):
     Position, PositionDelta, PosVel, PosVelDelta, ellipsoid, rotation, T = _imp()
     drv, rng = ctx.driver, ctx.rng
     names = list(ellipsoid._ELLIPSOIDS)
-    n = ctx.budget(250, 12000)
+    n = ctx.budget(250, 10000)
     for _ in range(n):
         ell = rng.choice(names)
         E = ellipsoid.get(ell)
@@ -929,6 +935,178 @@ def one_indexed(ctx, c):
 
 
 # --------------------------------------------------------------------------------------------------
+# broadcasting: the shapes the code really accepts — every combination is either agreed with the model or refused by both
+
+
+def _arr(rows, shape):
+    """rows as (k,), (1,k) or (n,k)"""
+    a = np.array(rows, dtype=float)
+    return a[0].copy() if shape == "1d" else a
+
+
+def _code(fn):
+    """the result as rows, or 'refused' when NumPy does not accept the shapes"""
+    try:
+        return rows_of(np.asarray(fn(), dtype=float))
+    except ValueError:
+        return "refused"
+
+
+def check_broadcast(ctx: Ctx):
+    Position, PositionDelta, PosVel, PosVelDelta, ellipsoid, rotation, T = _imp()
+    drv, rng = ctx.driver, ctx.rng
+    names = list(ellipsoid._ELLIPSOIDS)
+    n = ctx.budget(150, 4000)
+    for _ in range(n):
+        what = rng.choice(["enu", "enu", "acr", "azel", "angles", "vectors"])
+        ell = rng.choice(names)
+        E = ellipsoid.get(ell)
+
+        def pick():
+            k = rng.choice(["1d", "1xk", "n", "n", "other"])
+            return {"1d": (1, "1d"), "1xk": (1, "nxk"), "n": (3, "nxk"), "other": (rng.choice([2, 4]), "nxk")}[k] + (k,)
+
+        (na, sha, ka), (nb, shb, kb) = pick(), pick()
+        llh_rows = [gen_ref_llh(rng) for _ in range(na)]
+        trs_rows = [np.asarray(T.llh2trs(np.array(r), E), dtype=float).reshape(-1, 3)[0].tolist() for r in llh_rows]
+        case = {"fn": "broadcasting", "what": what, "ellipsoid": ell, "first": [na, sha], "second": [nb, shb], "ref_llh": llh_rows, "ref_trs": trs_rows}
+        ctx.count(f"broadcast:{what}")
+        try:
+            if what == "enu":
+                direction = rng.choice(["trs2enu", "enu2trs"])
+                six = rng.random() < 0.3
+                vecs = [gen_vec(rng, -3, 7) + (gen_vec(rng, -6, 3) if six else []) for _ in range(nb)]
+                case.update({"direction": direction, "posvel": six, "values": vecs})
+                ctx.case(case, nontrivial=True)
+                src, dst = direction.split("2")
+                if six:
+                    ref = PosVel(_arr([p + [10.0, -20.0, 30.0] for p in trs_rows], sha), "trs", ellipsoid=E)
+                    impl = _code(lambda: getattr(PosVelDelta(_arr(vecs, shb), src, ref_pos=ref), dst))
+                else:
+                    ref = Position(_arr(trs_rows, sha), "trs", ellipsoid=E)
+                    impl = _code(lambda: getattr(PositionDelta(_arr(vecs, shb), src, ref_pos=ref), dst))
+                frames = rows_of(np.asarray(ref.pos.llh.val, dtype=float))
+                if six and direction == "enu2trs":
+                    # the model's 6-vector command exists for trs -> enu; the other direction through the 3-vector halves
+                    mod = []
+                    for half in (slice(0, 3), slice(3, 6)):
+                        a = drv.ask1(f"c06 f rowsb enu2trs {na} {nb} " + " ".join(fline(*f[:2]) for f in frames) + " " + " ".join(fline(*v[half]) for v in vecs))
+                        mod.append(a)
+                    model = "refused" if "refused" in mod else np.hstack([np.array(floats(a)).reshape(-1, 3) for a in mod])
+                else:
+                    a = drv.ask1(f"c06 f rowsb {'d6' if six else ''}{direction} {na} {nb} " + " ".join(fline(*f[:2]) for f in frames) + " " + " ".join(fline(*v) for v in vecs))
+                    model = "refused" if a == "refused" else np.array(floats(a)).reshape(-1, 6 if six else 3)
+                scale = [max(float(np.linalg.norm(v[:3])), float(np.linalg.norm(v[3:])) if six else 0.0) for v in vecs]
+                _compare_broadcast(ctx, case, impl, model, na, nb, lambda i: 8 * 2.3e-16 * scale[i if nb > 1 else 0] + 1e-300)
+                # oracle: a single reference position is the frame of every row
+                if not isinstance(impl, str) and na == 1 and not six:
+                    for i in range(nb):
+                        one = rows_of(np.asarray(getattr(PositionDelta(np.array(vecs[i]), src, ref_pos=Position(np.array(trs_rows[0]), "trs", ellipsoid=E)), dst), dtype=float))[0]
+                        if float(np.max(np.abs(one - impl[i]))) > 8 * 2.3e-16 * scale[i] + 1e-300:
+                            gviolate(ctx, f"broadcast:single-ref_pos:{dst}", f"row {i} converted with the one reference position given as {sha} is {impl[i].tolist()}, on its own {one.tolist()}", {**case, "i": i})
+            elif what == "acr":
+                direction = rng.choice(["trs2acr", "acr2trs"])
+                states = [gen_state(rng) for _ in range(na)]
+                vecs = [gen_vec(rng, -3, 7) + gen_vec(rng, -6, 3) for _ in range(nb)]
+                case.update({"direction": direction, "states": states, "values": vecs})
+                ctx.case(case, nontrivial=True)
+                src, dst = direction.split("2")
+                ref = PosVel(_arr([list(r) + list(v) for r, v in states], sha), "trs")
+                impl = _code(lambda: getattr(PosVelDelta(_arr(vecs, shb), src, ref_pos=ref), dst))
+                a = drv.ask1(f"c06 f rowsb {direction} {na} {nb} " + " ".join(fline(*r, *v) for r, v in states) + " " + " ".join(fline(*v) for v in vecs))
+                model = "refused" if a == "refused" else np.array(floats(a)).reshape(-1, 6)
+                sins = [max(float(np.linalg.norm(np.cross(np.array(r) / np.linalg.norm(r), np.array(v) / np.linalg.norm(v)))), 1e-12) for r, v in states]
+                _compare_broadcast(ctx, case, impl, model, na, nb,
+                                   lambda i: (8 * 2.3e-16 / sins[i if na > 1 else 0] + 1e-15) * 4 * float(np.linalg.norm(vecs[i if nb > 1 else 0])) + 1e-300)
+            elif what == "azel":
+                targets = [(np.array(trs_rows[0]) + np.array(unit_dir(rng)) * rng.uniform(1e5, 3e7)).tolist() for _ in range(nb)]
+                case.update({"target_trs": targets})
+                ctx.case(case, nontrivial=True)
+                obs = Position(_arr(trs_rows, sha), "trs", ellipsoid=E, other=Position(_arr(targets, shb), "trs", ellipsoid=E))
+                impl = _code(lambda: np.stack([np.atleast_1d(obs.azimuth), np.atleast_1d(obs.elevation), np.atleast_1d(obs.zenith_distance)], axis=-1))
+                frames = rows_of(np.asarray(obs.llh.val, dtype=float))
+                a = drv.ask1(f"c06 f rowsazelb {na} {nb} " + " ".join(fline(f[0], f[1], *p) for f, p in zip(frames, trs_rows)) + " " + " ".join(fline(*t) for t in targets))
+                model = "refused" if a == "refused" else np.array(floats(a)).reshape(-1, 3)
+                _compare_broadcast(ctx, case, impl, model, na, nb, lambda i: 1e-9)
+            elif what == "angles":
+                which = rng.choice(["enu2trs", "trs2enu"])
+                kinds = {"1d": "s", "1xk": "a", "n": "a", "other": "a"}
+                lat = [gen_lat(rng) for _ in range(na)]
+                lon = [gen_lon(rng) for _ in range(nb)]
+                case.update({"which": which, "lat": lat, "lon": lon, "lat_is": kinds[ka], "lon_is": kinds[kb]})
+                ctx.case(case, nontrivial=True)
+                la = lat[0] if kinds[ka] == "s" else np.array(lat)
+                lo = lon[0] if kinds[kb] == "s" else np.array(lon)
+                try:
+                    impl = np.asarray(getattr(rotation, which)(la, lo), dtype=float).reshape(-1, 9)
+                except ValueError:
+                    impl = "refused"
+                a = drv.ask1(f"c06 f anglemats {which} {kinds[ka]} {na} {kinds[kb]} {fline(*lat)} {fline(*lon)}")
+                model = "refused" if a == "refused" else np.array(floats(a)).reshape(-1, 9)
+                ctx.count(f"broadcast:angles:{kinds[ka]}{na},{kinds[kb]}{nb}:" + ("refused" if isinstance(impl, str) else "accepted"))
+                if isinstance(impl, str) != isinstance(model, str):
+                    gdisagree(ctx, f"rotation.{which}: which (lat, lon) shapes are accepted", case, "refused" if isinstance(model, str) else "accepted", "refused" if isinstance(impl, str) else "accepted")
+                elif not isinstance(impl, str) and (impl.shape != model.shape or float(np.max(np.abs(impl - model))) > 5e-16):
+                    gdisagree(ctx, f"rotation.{which} on (lat, lon) arrays (Float model)", case, model.tolist(), impl.tolist())
+            else:
+                # vector / distance / direction: differences of the coordinates in the observer's own system (trs or llh)
+                na = nb = 1
+                t_llh = gen_ref_llh(rng)
+                t_trs = np.asarray(T.llh2trs(np.array(t_llh), E), dtype=float).reshape(-1, 3)[0].tolist()
+                osys = rng.choice(["trs", "llh"])
+                case.update({"observer_system": osys, "target_llh": t_llh, "target_trs": t_trs, "ref_llh": llh_rows[:1], "ref_trs": trs_rows[:1]})
+                ctx.case(case, nontrivial=True)
+                ctx.count(f"vectors:observer={osys}")
+                other = Position(np.array(t_trs), "trs", ellipsoid=E)
+                obs = Position(np.array(llh_rows[0] if osys == "llh" else trs_rows[0]), osys, ellipsoid=E, other=other)
+                vec, dist, dirn = np.asarray(obs.vector, dtype=float), float(obs.distance), np.asarray(obs.direction, dtype=float)
+                o_llh = np.asarray(obs.llh.val, dtype=float).tolist()
+                tl = np.asarray(other.llh.val, dtype=float).tolist()
+                o_trs = np.asarray(obs.trs.val, dtype=float).tolist()
+                ans = floats(drv.ask1(f"c06 f vecs {fline(*o_trs)} {fline(*t_trs)} {fline(*o_llh)} {fline(*tl)}"))
+                mv, md, mdir = (ans[0:3], ans[3], ans[4:7]) if osys == "trs" else (ans[7:10], ans[10], ans[11:14])
+                sc = max(abs(x) for x in mv) + 1e-300
+                if worst(vec, mv) > 4 * 2.3e-16 * sc or abs(dist - md) > 8 * 2.3e-16 * abs(md) or worst(dirn, mdir) > 1e-15:
+                    gdisagree(ctx, f"vector/distance/direction of an observer given in {osys} (Float model)", case, [mv, md, mdir], [vec.tolist(), dist, dirn.tolist()])
+                if osys == "trs":
+                    true = np.array(t_trs) - np.array(trs_rows[0])
+                    if float(np.max(np.abs(vec - true))) > 0 or abs(dist - float(np.linalg.norm(true))) > 4 * math.ulp(dist):
+                        gviolate(ctx, "vector=target-observer", f"vector {vec.tolist()} / distance {dist!r} of a TRS observer: target - observer is {true.tolist()}", case)
+        except Exception as e:
+            gviolate(ctx, f"raises:broadcast:{what}:{type(e).__name__}", f"broadcasting case raised {type(e).__name__}: {e}", case)
+
+
+def _compare_broadcast(ctx, case, impl, model, na, nb, tol):
+    accepted = na == nb or na == 1 or nb == 1
+    lab = lambda n_, sh, other: "(k,)" if sh == "1d" else "(1,k)" if n_ == 1 else "(n,k)" if (other == 1 or other == n_) else "(m,k)"
+    ctx.count(f"broadcast:{'accepted' if accepted else 'refused'}:{lab(na, case['first'][1], na)} with {lab(nb, case['second'][1], na)}")
+    if isinstance(impl, str) != isinstance(model, str):
+        gdisagree(ctx, f"broadcasting ({case['what']}): which shapes are accepted", case, "refused" if isinstance(model, str) else "accepted", "refused" if isinstance(impl, str) else "accepted")
+        return
+    if isinstance(impl, str):
+        if accepted:
+            gviolate(ctx, f"broadcast:refused:{case['what']}", f"{case['first']} against {case['second']} rows is refused", case)
+        return
+    if impl.shape != model.shape or impl.shape[0] != max(na, nb):
+        gdisagree(ctx, f"broadcasting ({case['what']}): number of rows of the result", case, list(model.shape), list(impl.shape))
+        return
+    for i in range(impl.shape[0]):
+        k = impl.shape[1]
+        for q in range(0, k, 3):
+            if case["what"] == "azel":
+                d = np.abs(impl[i] - model[i])
+                d[0] = min(d[0], abs(d[0] - 2 * PI))
+                cosel = max(math.cos(model[i][1]), 1e-7)
+                bad = float(np.max(d)) > 1e-12 / cosel**2
+            else:
+                bad = float(np.max(np.abs(impl[i][q:q + 3] - model[i][q:q + 3]))) > tol(i) * (1 if q == 0 else 1)
+            if bad:
+                gdisagree(ctx, f"broadcasting ({case['what']}): row {i} (Float model: replicated single row / paired rows)", {**case, "i": i}, model[i].tolist(), impl[i].tolist())
+                return
+
+
+
+# --------------------------------------------------------------------------------------------------
 # along / cross / radial
 
 
@@ -970,7 +1148,7 @@ def near_states(rng, state0, m):
 def check_acr(ctx: Ctx):
     Position, PositionDelta, PosVel, PosVelDelta, ellipsoid, rotation, T = _imp()
     drv, rng = ctx.driver, ctx.rng
-    n = ctx.budget(250, 12000)
+    n = ctx.budget(250, 10000)
     for _ in range(n):
         m = rng.choice([1, 1, 1, 2, 3, 5])
         shape = rng.choice(["1d", "1xk"]) if m == 1 else "nxk"
